@@ -37,9 +37,11 @@ mod imp {
 mod imp {
     use std::cell::RefCell;
     thread_local! {
-        static VALUES: RefCell<Option<std::collections::VecDeque<i128>>> = const { RefCell::new(None) };
+        static VALUES: RefCell<Option<std::collections::VecDeque<(String, i128)>>> = const { RefCell::new(None) };
     }
-    fn next() -> i128 {
+    /// Values are `type:value` pairs in call order.  CBMC leaves draws that cannot influence the failure out
+    /// of its trace; such a draw is recognised by its type not matching the next recorded one and gets 0.
+    fn next(ty: &str) -> i128 {
         VALUES.with(|v| {
             let mut v = v.borrow_mut();
             if v.is_none() {
@@ -47,28 +49,29 @@ mod imp {
                 *v = Some(
                     raw.split(',')
                         .filter(|s| !s.trim().is_empty())
-                        .map(|s| s.trim().parse::<i128>().expect("VERIF_REPLAY_VALUES: integer"))
+                        .map(|s| {
+                            let (t, x) = s.trim().split_once(':').unwrap_or(("", s.trim()));
+                            (t.to_string(), x.parse::<i128>().expect("VERIF_REPLAY_VALUES: integer"))
+                        })
                         .collect(),
                 );
             }
-            match v.as_mut().unwrap().pop_front() {
-                Some(x) => x,
-                None => {
-                    println!("VERIF_REPLAY: value vector exhausted");
-                    std::process::exit(3)
-                }
+            let q = v.as_mut().unwrap();
+            match q.front() {
+                Some((t, _)) if t.is_empty() || t == ty => q.pop_front().unwrap().1,
+                _ => 0,
             }
         })
     }
-    pub fn u8() -> u8 { next() as u8 }
-    pub fn u16() -> u16 { next() as u16 }
-    pub fn u32() -> u32 { next() as u32 }
-    pub fn u64() -> u64 { next() as u64 }
-    pub fn i8() -> i8 { next() as i8 }
-    pub fn i16() -> i16 { next() as i16 }
-    pub fn i32() -> i32 { next() as i32 }
-    pub fn i64() -> i64 { next() as i64 }
-    pub fn bool() -> bool { (next() as u8) & 1 == 1 }
+    pub fn u8() -> u8 { next("u8") as u8 }
+    pub fn u16() -> u16 { next("u16") as u16 }
+    pub fn u32() -> u32 { next("u32") as u32 }
+    pub fn u64() -> u64 { next("u64") as u64 }
+    pub fn i8() -> i8 { next("i8") as i8 }
+    pub fn i16() -> i16 { next("i16") as i16 }
+    pub fn i32() -> i32 { next("i32") as i32 }
+    pub fn i64() -> i64 { next("i64") as i64 }
+    pub fn bool() -> bool { (next("bool") as u8) & 1 == 1 }
     pub fn assume(b: bool) {
         if !b {
             println!("VERIF_REPLAY: assumption not satisfied by the replayed values");
